@@ -196,6 +196,83 @@ class Classifier:
                     return True
                 if any(refutable(p) for p in subs):
                     return "C01-subpattern-constraint-on-subject"
+        # --- in-place mutation of a container through an operation the checker does not model (measured on the
+        #     unchanged tree: list index store / del / swap / insert / pop / remove / clear / reverse / sort, dict
+        #     clear / popitem, set discard / remove / update, and every store, del or mutating call whose receiver is
+        #     itself a subscript or attribute of the variable) leaves the inferred value of the container stale
+        UNTRACKED = {"list": {"insert", "pop", "remove", "clear", "reverse", "sort"}, "dict": {"clear", "popitem"},
+                     "set": {"discard", "remove", "update", "clear", "pop", "difference_update", "intersection_update", "symmetric_difference_update"}}
+        ALLMUT = MUT | {"difference_update", "intersection_update", "symmetric_difference_update"}
+
+        def root_name(e):
+            while isinstance(e, (ast.Subscript, ast.Attribute)):
+                e = e.value
+            return e.id if isinstance(e, ast.Name) else None
+
+        def container_kind(e):
+            v = self.unannot(self.iv(e)) if self.iv(e) is not None else None
+            vals = list(v.vals) if isinstance(v, self.V.MultiValuedValue) else [v]
+            kinds = set()
+            for m in vals:
+                m = self.unannot(m) if m is not None else None
+                if isinstance(m, self.V.KnownValue):
+                    kinds.add(type(m.val).__name__)
+                elif isinstance(m, self.V.TypedValue) and isinstance(m.typ, type):
+                    kinds.add(m.typ.__name__)
+            return kinds
+
+        for n in ast.walk(fn):
+            if getattr(n, "lineno", 10 ** 9) > node.lineno:
+                continue
+            if isinstance(n, ast.Subscript) and isinstance(n.ctx, (ast.Store, ast.Del)) and root_name(n) in V_:
+                if not isinstance(n.value, ast.Name):
+                    return "C01-untracked-container-mutation"      # nested store / del
+                if "list" in container_kind(n.value):
+                    return "C01-untracked-container-mutation"      # list index store / del / swap
+            if isinstance(n, ast.Call) and isinstance(n.func, ast.Attribute) and n.func.attr in ALLMUT and root_name(n.func.value) in V_:
+                recv = n.func.value
+                if not isinstance(recv, ast.Name):
+                    return "C01-untracked-container-mutation"      # mutation through a subscripted / attribute receiver
+                for kind, meths in UNTRACKED.items():
+                    if kind in container_kind(recv) and n.func.attr in meths:
+                        return "C01-untracked-container-mutation"
+        # --- f(**d): for a key written several times the FIRST write is bound
+        for x in sub:
+            if isinstance(x, ast.Call) and any(kw.arg is None and isinstance(kw.value, ast.Name) and "dict" in container_kind(kw.value) for kw in x.keywords):
+                return "C01-kwargs-splat-first-write-wins"
+        # --- **rest of a mapping pattern keeps the older writes of the matched keys
+        for m in ast.walk(fn):
+            if isinstance(m, ast.MatchMapping) and m.rest and m.rest in V_:
+                return "C01-mapping-rest-keeps-overwritten-keys"
+        # --- iterating the keys of a dict built in several steps repeats overwritten keys (list(d), for k in d, [k for k in d])
+        def dict_name(e):
+            return isinstance(e, ast.Name) and "dict" in container_kind(e)
+        for x in sub + [n for n in ast.walk(fn) if isinstance(n, (ast.For, ast.comprehension))]:
+            if isinstance(x, ast.Call) and isinstance(x.func, ast.Name) and x.func.id in ("list", "tuple", "sorted", "set", "frozenset", "iter", "enumerate") and x.args and dict_name(x.args[0]) and (x is node or any(x is y for y in sub)):
+                return "C01-dict-key-iteration-repeats-keys"
+            if isinstance(x, (ast.For, ast.comprehension)) and dict_name(x.iter) and (_target_names(x.target) & V_):
+                return "C01-dict-key-iteration-repeats-keys"
+        # --- the composite d[k] set by a store is not invalidated by a later d.update(...) / setdefault / pop
+        ap3 = access_path(node)
+        if ap3 is not None and ap3[1] and ap3[1][-1].startswith("["):
+            stores = [n for n in ast.walk(fn) if isinstance(n, ast.Subscript) and isinstance(n.ctx, ast.Store) and access_path(n) == ap3 and n.lineno < node.lineno]
+            if stores:
+                first = min(n.lineno for n in stores)
+                for n in ast.walk(fn):
+                    if isinstance(n, ast.Call) and isinstance(n.func, ast.Attribute) and n.func.attr in ("update", "setdefault", "pop", "popitem", "clear") \
+                            and isinstance(n.func.value, ast.Name) and n.func.value.id == ap3[0] and first < n.lineno <= node.lineno:
+                        return "C01-subscript-composite-stale-after-update"
+        # --- d[k] = v in only one branch (if without else, loop body, try body): d[k] afterwards is only v
+        ap2 = access_path(node)
+        if ap2 is not None and ap2[1] and ap2[1][-1].startswith("["):
+            for comp in ast.walk(fn):
+                if isinstance(comp, (ast.If, ast.For, ast.While, ast.Try, ast.With, ast.Match)) and node.lineno > comp.end_lineno:
+                    for st in ast.walk(comp):
+                        targets = st.targets if isinstance(st, ast.Assign) else [st.target] if isinstance(st, (ast.AugAssign, ast.AnnAssign)) else []
+                        for t in targets:
+                            for tt in (t.elts if isinstance(t, (ast.Tuple, ast.List)) else [t]):
+                                if access_path(tt) == ap2:
+                                    return "C01-subscript-store-in-one-branch"
         # --- tuple + tuple drops the receiver's element type
         for s in sub:
             if isinstance(s, ast.BinOp) and isinstance(s.op, ast.Add):
